@@ -3,7 +3,7 @@ from __future__ import annotations
 
 import ast
 
-from ..astu import U, dotted, walk_shallow, fold, NotLiteral, call_name, calls_in, kwarg, monomial, mono_str, param_default
+from ..astu import U, dotted, walk_shallow, fold, NotLiteral, call_name, calls_in, kwarg, monomial, mono_str, param_default, linform, has
 from ..cfg import build, find_guards
 from ..core import AnalysisError, Mutant, Rule, Twin
 from ..idioms import subscript_stores, for_loops, target_names, exc_name
@@ -214,12 +214,49 @@ def r5_single_matrix(ctx):
             ctx.check("if rsys.check_balance(strict=True):" in U(fn), a, "strict-balance-gate", "max_euler_step_cb/linear_dependencies must be gated by check_balance(strict=True)", node=fn)
 
 
+def r6_analytic_elimination(ctx):
+    """row ri of the reduced matrix:  sum_d rA[ri,d]*(y_d - y0_d) = 0  solved for column idx"""
+    fn = ctx.func(ODE, "get_odesys.linear_dependencies.analytic_solver")
+    a = ODE + ":get_odesys.linear_dependencies.analytic_solver"
+    terms = None
+    store = None
+    for n in ast.walk(fn):
+        if isinstance(n, ast.Assign) and isinstance(n.targets[0], ast.Name) and isinstance(n.value, ast.ListComp) and "rA" in U(n.value):
+            terms = n
+        if isinstance(n, ast.Assign) and isinstance(n.targets[0], ast.Subscript) and U(n.targets[0].value) == "analytic_exprs" and not isinstance(n.value, ast.Call):
+            store = n
+    if terms is None or store is None:
+        raise AnalysisError("analytic_solver: terms / analytic_exprs store not found")
+    lc = terms.value
+    g = lc.generators[0]
+    di = U(g.target)
+    row = None
+    for m_ in ast.walk(lc.elt):
+        if isinstance(m_, ast.Subscript) and U(m_.value) == "rA":
+            row = U(m_.slice)
+    c, p = monomial(lc.elt, atom=lambda n: U(n))
+    diff = [k for k in p if " - " in k]
+    ok = c == 1 and len(p) == 2 and "rA[ri, %s]" % di in p and len(diff) == 1 and linform(ast.parse(diff[0], mode="eval").body, atom=lambda n: U(n)) == {
+        "odesys.dep[%s]" % di: 1, "y0[odesys.dep[%s]]" % di: -1}
+    ctx.check(ok, a, "term=rA[ri,d]*(y_d-y0_d)", "each term must be rA[ri, d] * (dep[d] - y0[dep[d]]); found %s" % U(lc.elt), node=terms)
+    conds = " and ".join(U(x) for x in g.ifs)
+    ctx.check(U(g.iter) == "range(ci1st, odesys.ny)" and conds == "%s != idx" % di, a, "all-other-columns", "terms must range over every other column of the row (from the pivot on); found `for %s in %s if %s`" % (di, U(g.iter), conds), node=terms)
+    lf = linform(store.value, atom=lambda n: U(n))
+    quot = [k for k in lf if k.startswith("sum(")]
+    ok = len(lf) == 2 and lf.get("y0[odesys.dep[idx]]") == 1 and len(quot) == 1 and lf[quot[0]] == -1 and \
+        monomial(ast.parse(quot[0], mode="eval").body, atom=lambda n: U(n)) == (1, {"sum(%s)" % U(terms.targets[0]): {"1": 1}, "rA[ri, idx]": {"1": -1}})
+    ctx.check(ok, a, "y_idx=y0_idx-sum/rA[ri,idx]", "the eliminated concentration must be y0[idx] - sum(terms) / rA[ri, idx] (the row equation solved for column idx); found %s" % U(store.value), node=store)
+    ctx.check(U(store.targets[0].slice) == "odesys[key]" and has(fn, "key = odesys.names[idx]"), a, "keyed-by-eliminated-species", "the expression must be stored for the species of column idx", node=store)
+    ctx.check(has(fn, "rA, pivots = A.rref()") and has(fn, "for ri, ci1st in enumerate(pivots):") and has(fn, "if rA[ri, idx] == 0: continue"), a, "row-reduced-rows", "rows must come from A.rref() and zero coefficients be skipped", node=fn)
+
+
 RULES = [
     Rule("C05-R1", r1_armed, 9, "balance check armed: in default_checks, run with throw=True, dominates constructor exits"),
     Rule("C05-R2", r2_all_reactions, 9, "check_balance: all reactions, all keys, no early True"),
     Rule("C05-R3", r3_charge_not_skipped, 10, "charge not skipped; violation sum aligned"),
     Rule("C05-R4", r4_matrix_orientation, 3, "invariant matrix orientation"),
     Rule("C05-R5", r5_single_matrix, 6, "one invariant matrix for linear_invariants and analytic solver"),
+    Rule("C05-R6", r6_analytic_elimination, 5, "analytic elimination = row equation solved for the chosen column"),
 ]
 
 MUTANTS = [
@@ -238,7 +275,14 @@ MUTANTS = [
     Mutant("invariants-dropped", [(ODE, "        linear_invariants=compo_vecs,", "        linear_invariants=None,")], "C05-R5", "linear_invariants"),
 ]
 
+MUTANTS += [
+    Mutant("analytic-solver-multiplies", [(ODE, "y0[odesys.dep[idx]] - sum(terms) / rA[ri, idx]", "y0[odesys.dep[idx]] - sum(terms) * rA[ri, idx]")], "C05-R6", "y_idx"),
+    Mutant("analytic-solver-sign", [(ODE, "y0[odesys.dep[idx]] - sum(terms) / rA[ri, idx]", "y0[odesys.dep[idx]] + sum(terms) / rA[ri, idx]")], "C05-R6", "y_idx"),
+    Mutant("analytic-solver-term-y0", [(ODE, "rA[ri, di] * (odesys.dep[di] - y0[odesys.dep[di]])", "rA[ri, di] * (odesys.dep[di] - y0[odesys.dep[idx]])")], "C05-R6", "term"),
+]
+
 TWINS = [
+    Twin("analytic-solver-rearranged", [(ODE, "y0[odesys.dep[idx]] - sum(terms) / rA[ri, idx]", "-sum(terms) / rA[ri, idx] + y0[odesys.dep[idx]]")]),
     Twin("dont-check-minus", [(RSYS, "            checks = self.default_checks ^ (dont_check or set())\n        for check in checks:\n            getattr(self, \"check_\" + check)(throw=True)\n\n        if sort_substances:", "            checks = self.default_checks - (dont_check or set())\n        for check in checks:\n            getattr(self, \"check_\" + check)(throw=True)\n\n        if sort_substances:")]),
     Twin("violation-commuted", [(CHEM, "net[idx] += substance.composition.get(key, 0) * coeff", "net[idx] += coeff * substance.composition.get(key, 0)")]),
     Twin("extra-log-line", [(RSYS, "        for rxn in self.rxns:\n            for net, k in zip(", "        _n_checked = len(self.rxns)\n        for rxn in self.rxns:\n            for net, k in zip(")]),
